@@ -465,7 +465,8 @@ def execute(case):
         if case.get("optout") == "generated" and case["hashseed"] % 2:
             cfg["format_generated_files"] = False
         if case["via"] == "file":
-            files["w/rustfmt.toml"] = gen_config.render(cfg) + ('ignore = ["input.rs"]\n' if case.get("optout") == "ignored" else "")
+            files["w/rustfmt.toml"] = gen_config.render(cfg) + ('ignore = ["input.rs"]\n' if case.get("optout") == "ignored" else
+                                                                 'ignore = ["other.rs", "gen/"]\n' if case["hashseed"] % 5 == 0 else "")
         elif case["via"] == "configpath":
             # an explicit config in another directory, sometimes with an ignore list
             txt = gen_config.render(cfg)
@@ -497,7 +498,8 @@ def execute(case):
             argv += ["--unstable-features", "--file-lines", json.dumps(spans)]
         if case["delivery"] == "root":
             files["w/input.rs"] = spec
-            inv["argv"] = argv + ["input.rs" if case["hashseed"] % 3 else "$ROOT/w/input.rs"]
+            inv["argv"] = argv + [["$ROOT/w/input.rs", "input.rs", "input.rs", "$ROOT//w/input.rs", "$ROOT/./w/input.rs", "$ROOT/w//input.rs",
+                                   "./input.rs", "../w/input.rs"][case["hashseed"] % 8]]
         elif case["delivery"] == "module":
             files["w/main.rs"] = "mod input;\nfn  main( ){ }\n"
             files["w/input.rs"] = spec
